@@ -91,6 +91,9 @@ type Config struct {
 	ResponseHeaders map[string][]string
 	// MarkErrors: the server's error presenter is proj.MarkingPresenter
 	MarkErrors bool
+	// WSInitReads: the websocket transport has an InitFunc that reads the init payload through
+	// gqlgen's own accessors (InitPayload.Authorization, GetString), as an authenticating server does
+	WSInitReads bool
 }
 
 // AllTransports: the streaming transports come before POST, as the documentation says (POST accepts
@@ -123,7 +126,16 @@ func New(s *proj.Server, cfg Config) *handler.Server {
 		case "multipartmixed":
 			h.AddTransport(transport.MultipartMixed{})
 		case "websocket":
-			h.AddTransport(transport.Websocket{KeepAlivePingInterval: cfg.KeepAlive})
+			ws := transport.Websocket{KeepAlivePingInterval: cfg.KeepAlive}
+			if cfg.WSInitReads {
+				ws.InitFunc = func(ctx context.Context, ip transport.InitPayload) (context.Context, *transport.InitPayload, error) {
+					_ = ip.Authorization()
+					_ = ip.GetString("k")
+					_ = ip.GetString("Authorization")
+					return ctx, nil, nil
+				}
+			}
+			h.AddTransport(ws)
 		}
 	}
 	if cfg.MarkErrors {
